@@ -243,11 +243,26 @@ def _plain(r):
     return isinstance(r, DimArray) and r.ndim >= 1 and not isinstance(r.axes[0], MultiAxis) and "," not in r.axes[0].name
 
 
+def _via_ds(r, rename):
+    """the variable of a Dataset after a renaming through the Dataset that re-uses names already in use (a duplicate must be refused - the
+    producer is then not applicable - or at least leave a well-formed variable)"""
+    if r.ndim < 2:
+        return None
+    ds = Dataset(v=r.copy())
+    rename(ds)
+    return ds["v"]
+
+
 PRODUCERS = {
     "T": lambda r: r.T if r.ndim <= 2 else r.transpose(*r.dims[::-1]), "squeeze": lambda r: r.squeeze(), "flatten": lambda r: r.flatten(),
     "flatten_rev": lambda r: r.flatten(r.dims[::-1], insert=0), "unflatten": lambda r: r.unflatten(), "ix_slice": lambda r: r.ix[:2],
     "ix_slice_rev": lambda r: r.ix[::-1], "label_slice": lambda r: r[py(r.axes[0].values[0]):py(r.axes[0].values[1])], "take_axis": lambda r: r.take_axis([1, 0], axis=0, indexing="position"),
     "sort_axis": lambda r: r.sort_axis(axis=0), "reindex": lambda r: r.reindex_axis(py(r.axes[0].values)[::-1], axis=0), "add_partner": lambda r: r + partner(r.dims[0], _first(r)[1]),
+    "set_axis_name_dup": lambda r: r.set_axis(name=r.dims[-1], axis=0, inplace=False) if r.ndim >= 2 else None,
+    "ds_dims_dup": lambda r: _via_ds(r, lambda ds: setattr(ds, "dims", (ds.dims[0],) * len(ds.dims))),
+    "ds_rename_dup": lambda r: _via_ds(r, lambda ds: ds.rename_axes({ds.dims[0]: ds.dims[1]})),
+    "ds_set_axis_name_dup": lambda r: _via_ds(r, lambda ds: ds.set_axis(name=ds.dims[1], axis=0)),
+    "ds_dims_perm": lambda r: _via_ds(r, lambda ds: setattr(ds, "dims", tuple(ds.dims[1:]) + tuple(ds.dims[:1]))),
     "neg": lambda r: -r, "mul": lambda r: r * 2, "eq": lambda r: r == r, "copy": lambda r: r.copy(), "newaxis": lambda r: r.newaxis("n", pos=1),
     "dataset": lambda r: Dataset(v=r)["v"], "cumsum": lambda r: r.cumsum(axis=0), "mean_last": lambda r: r.mean(axis=-1), "swapaxes": lambda r: r.swapaxes(0, -1),
     "dimarray": lambda r: DimArray(r), "put_copy": lambda r: r.put(0, 5, indexing="position", inplace=False), "index_list": lambda r: r.take(py(r.axes[0].values)[:2], axis=0),
@@ -316,6 +331,35 @@ def m_dims(r):
     r.dims = tuple(names)
 
 
+def m_dims_dup(r):        # renaming to duplicate names must be refused
+    if r.ndim < 2:
+        raise ValueError("n/a")
+    r.dims = (r.dims[0],) * r.ndim
+
+
+def m_dims_perm(r):       # the new names are a permutation of the old ones: dimension i gets the i-th new name
+    if r.ndim < 2:
+        raise ValueError("n/a")
+    new = tuple(r.dims[1:]) + tuple(r.dims[:1])
+    r.dims = new
+    return {"dims": new}
+
+
+def m_dims_dict_swap(r):
+    if r.ndim < 2:
+        raise ValueError("n/a")
+    d = list(r.dims)
+    new = tuple([d[1], d[0]] + d[2:])
+    r.dims = {d[0]: d[1], d[1]: d[0]}
+    return {"dims": new}
+
+
+def m_set_axis_name_dup(r):
+    if r.ndim < 2:
+        raise ValueError("n/a")
+    r.set_axis(name=r.dims[1], axis=0)
+
+
 def m_axes_fewer(r):      # whole-axes assignment with a wrong number of axes: must be refused (or leave a well-formed array)
     r.axes = [ax.copy() for ax in r.axes][:-1]
 
@@ -332,7 +376,7 @@ def m_axes_ok(r):
     r.axes = [Axis(np.array(py(ax.values)[::-1], dtype=ax.values.dtype), ax.name) for ax in r.axes]
 
 
-MUTATORS = {"m_axes_fewer": m_axes_fewer, "m_axes_more": m_axes_more, "m_axes_none": m_axes_none, "m_axes_ok": m_axes_ok, "m_relabel": m_relabel, "m_relabel_last": m_relabel_last_axis, "m_rename": m_rename, "m_rename_last": m_rename_last, "m_set_sorted": m_set_sorted,
+MUTATORS = {"m_dims_dup": m_dims_dup, "m_dims_perm": m_dims_perm, "m_dims_dict_swap": m_dims_dict_swap, "m_set_axis_name_dup": m_set_axis_name_dup, "m_axes_fewer": m_axes_fewer, "m_axes_more": m_axes_more, "m_axes_none": m_axes_none, "m_axes_ok": m_axes_ok, "m_relabel": m_relabel, "m_relabel_last": m_relabel_last_axis, "m_rename": m_rename, "m_rename_last": m_rename_last, "m_set_sorted": m_set_sorted,
             "m_set_axis_values": m_set_axis_values, "m_dimattr": m_dimattr, "m_put": m_put, "m_dims": m_dims}
 
 
@@ -460,8 +504,14 @@ class Space(object):
             elif kind == "query":
                 call(QUERIES[name], src)
             else:
-                if grouped and name in ("m_rename", "m_rename_last", "m_dims", "m_relabel", "m_relabel_last", "m_set_sorted", "m_set_axis_values", "m_dimattr", "m_axes_ok", "m_axes_fewer", "m_axes_more", "m_axes_none"):
+                if grouped and name in ("m_rename", "m_rename_last", "m_dims", "m_relabel", "m_relabel_last", "m_set_sorted", "m_set_axis_values", "m_dimattr", "m_dims_dup", "m_dims_perm", "m_dims_dict_swap", "m_set_axis_name_dup", "m_axes_ok", "m_axes_fewer", "m_axes_more", "m_axes_none"):
                     return ok("disabled", False, terminal=True, canon=None)     # direct edits of a grouped axis are outside the alphabet
+                if name in ("m_dims_perm", "m_dims_dict_swap", "m_set_axis_name_dup", "m_dims_dup"):
+                    # renames to names already in use: only when the other register shares no Axis object with this one (results of indexing /
+                    # transpose share the operand's Axis objects by design, so an in-place rename of one shows in the other)
+                    mine = set(id(ax) for ax in src.axes)
+                    if any(isinstance(rr, DimArray) and rr is not src and mine & set(id(ax) for ax in rr.axes) for rr in regs):
+                        return ok("disabled", False, terminal=True, canon=None)
                 _TAKEN.clear()
                 for rr in regs:
                     if isinstance(rr, DimArray):
@@ -472,6 +522,8 @@ class Space(object):
                 res = call(MUTATORS[name], src)
                 if isinstance(res, Raised):
                     return ok("mutator-n/a", False, terminal=True, canon=None)
+                if isinstance(res, dict) and "dims" in res and tuple(src.dims) != tuple(res["dims"]):
+                    return bad("after {}: the dimensions were to be renamed to {} but are {}".format(hist[1:], res["dims"], tuple(src.dims)))
             if last:
                 changed = (tuple(common.snap(r) if isinstance(r, DimArray) else None for r in regs), hidden(regs)) != pre
         # every register must answer like a freshly constructed twin
